@@ -162,7 +162,12 @@ def header_lines(rng, fields, noise=False):
         lines += ["  static   struct  mex_hlog_field   mex_hlog_fields [ N ]  =  ", "", "  {  "]
     else:
         lines += ["struct mex_hlog_field mex_hlog_fields[]={"]
+    # the table declared in two blocks (the array closed, other text, the array opened again): the fields of both count, in order
+    split = rng.randrange(1, len(fields)) if (noise and len(fields) >= 2 and rng.random() < 0.3) else None
     for i, (name, w) in enumerate(fields):
+        if split is not None and i == split:
+            lines += ["};", "", '  { 1, "between_blocks" },', "#ifdef MORE",
+                      rng.choice(["struct mex_hlog_field mex_hlog_fields_more[] = {", "static struct mex_hlog_field mex_hlog_fields[N2] =", "struct mex_hlog_field mex_hlog_fields2[]={"])]
         if noise and rng.random() < 0.25:
             lines.append(rng.choice(['  { 0, "zero_width" },', '  { 3, "three" },', '    1, "nobrace"', '  { "nosize" },',
                                      "", "  // comment", '  { 12, "twelve" },', '  { 1, "" },',
